@@ -284,6 +284,31 @@ R.contract(
 )
 R.spec_funcs["same_ref"] = lambda it, a, b: a is b
 
+
+# ------------------------------------------------------------------------------------------------- the `examples` map: the value of every entry is collected
+R.extern["requests.RequestException"] = lambda it, a, k: it.resolve_exc_class("RequestException", None)
+R.exception_classes["RequestException"] = "OSError"
+R.contract(EX + "load_external_example", args={"url": Str}, returns=Opq("ExampleValue"), raises=["RequestException"], trusted=True, effects={"loaded": "ghost('loaded') + [(url, result if raised is None else None)]"},
+           note="fetches an `externalValue` (network; unreachable ones are skipped)")
+Entry = OneOf(DictOf(required={"value": Opq("ExampleValue")}), DictOf(required={"externalValue": Str}), DictOf(optional={"summary": Str}))
+R.contract(
+    EX + "extract_inner_examples",
+    variant="values",
+    prop="C17",
+    args={"examples": DictOf(optional={"first": Entry, "second": Entry}), "unresolved_definition": DictOf(required={"first": DictOf(optional={"$ref": Str}), "second": DictOf(optional={"$ref": Str})})},
+    ghost={"loaded": []},
+    raises=[],
+    ensures={
+        # every entry of an `examples` map that has a `value` contributes exactly that value (verbatim); external ones what could be fetched; an entry that was a $ref to a bare example contributes itself
+        "the_value_of_every_entry_is_collected_verbatim": "all(any(r is examples[n]['value'] for r in result) for n in examples if 'value' in examples[n])",
+        "fetched_external_values_are_collected": "all(any(r is v for r in result) for u, v in ghost('loaded') if v is not None)",
+        "nothing_else_is_collected": "length(result) == length([n for n in examples if 'value' in examples[n]]) + length([1 for u, v in ghost('loaded') if v is not None]) + "
+                                     "length([n for n in examples if '$ref' in unresolved_definition[n] and 'value' not in examples[n] and 'externalValue' not in examples[n]])",
+    },
+    bounded_note="maps with up to 2 entries",
+    replayable=False,
+)
+
 LEVEL_TEXT = ("Deductive coverage postcondition on the real combination generators for example lists up to a stated size (labelled bounded), plus the round-robin "
               "arithmetic lemma for all sizes; extraction of examples from the document is not decided here.")
 LEVEL_NOTE = "Trusted: itertools cycle/islice (E5), fill-in generation (E1/E2), pyvc semantics (E9)."
